@@ -9,7 +9,7 @@
    entry of every symbol it pops.  The pinned code did not ([clr = false] below); the stale
    entry then mis-attributes a later symbol at the same index to a foreign module
    (findings/C06.md, C06_stale_external_on_pinned_code in props/C06.v).  No proofs here. *)
-From Coq Require Import List ZArith Bool.
+From Coq Require Import List ZArith Bool Uint63.
 Import ListNotations.
 From Zn.spec Require Import ScopeSpec.
 Open Scope Z_scope.
@@ -354,3 +354,33 @@ Definition op_of (q : list Z) : op :=
   end.
 Definition run_vm_case (qs : list (list Z)) : list (list Z) := vm_trace (map op_of qs).
 Definition run_scope_case (qs : list (list Z)) : list (list Z) := scope_trace (map op_of qs).
+
+(* ---- compact transport for the per-run correspondence check ----
+   One primitive 63-bit integer per operation and per answer row (primitive literals are read natively; Z literals
+   go through the number-notation interpreter and cost milliseconds per case).  The comparison is done here, inside
+   Coq: a case is (packed operations, packed rows observed on the implementation); the result is [1] when the
+   model's trace differs from the observed one, else [0].  Used only by tools/props/c06.py, in no theorem. *)
+Definition unpack_op (z : Z) : op :=
+  op_of [z mod 8; (z / 8) mod 16; (z / 128) mod 4096; (z / 524288) mod 8].
+
+Definition pack_row (r : list Z) : Z :=
+  match r with
+  | [c; v; m; d; n] => ((((c * 4096 + (v + 16)) * 8 + (m + 2)) * 256 + (d + 64)) * 256 + n)
+  | [c; v; m] => ((((c * 4096 + (v + 16)) * 8 + (m + 2)) * 256 + 64) * 256)
+  | _ => -1
+  end.
+
+Fixpoint zlist_eqb (a b : list Z) : bool :=
+  match a, b with
+  | [], [] => true
+  | x :: a', y :: b' => (x =? y) && zlist_eqb a' b'
+  | _, _ => false
+  end.
+
+Definition vm_case_differs (c : list Uint63.int * list Uint63.int) : list Z :=
+  if zlist_eqb (map pack_row (vm_trace (map (fun i => unpack_op (Uint63.to_Z i)) (fst c)))) (map Uint63.to_Z (snd c))
+  then [0] else [1].
+Definition scope_case_differs (c : list Uint63.int * list Uint63.int) : list Z :=
+  if zlist_eqb (map (fun r => pack_row (firstn 3 r)) (scope_trace (map (fun i => unpack_op (Uint63.to_Z i)) (fst c))))
+               (map Uint63.to_Z (snd c))
+  then [0] else [1].
